@@ -170,6 +170,18 @@ func Generate(genseed uint64, stream string, thorough bool) *Case {
 	c.FindSucc = r.Chance(1, 3)
 
 	switch stream {
+	case "platimage":
+		// WithTargetPlatform on an image-manifest root: SelectManifest reads the manifest and its config
+		// blob from the source in the prologue (matching and non-matching platforms, wrong config type)
+		c.Mode = common.Pick(r, []string{"t", "r"})
+		c.Root = addPlatformImage(r, g)
+		c.Graph = g.Encode()
+		c.MapRoot, c.Mount = -1, false
+		c.Platform = common.Pick(r, arches)
+		c.PlatVar, c.PlatFeat = "", ""
+		if c.Src == "file" || c.Src == "remote" {
+			c.Src = "mem"
+		}
 	case "twinreach":
 		// F12 without pre-population: the bytes of a reachable manifest M also occur as a blob X that
 		// another reachable manifest lists as a layer; the destination starts empty (or with unrelated
@@ -437,6 +449,39 @@ func addBlobTwin(r *common.Rand, g *dag.Graph) {
 		nd.Bytes, nd.Desc = bs, desc(ix.MediaType, bs)
 		g.Nodes = append(g.Nodes, nd)
 	}
+}
+
+// addPlatformImage appends a config blob that is a valid image config (architecture / os), mostly of the
+// image-config media type, and an image manifest over it; returns the manifest.
+func addPlatformImage(r *common.Rand, g *dag.Graph) int {
+	desc := func(mt string, bs []byte) ocispec.Descriptor {
+		return ocispec.Descriptor{MediaType: mt, Digest: digest.FromBytes(bs), Size: int64(len(bs))}
+	}
+	var blobs []int
+	for _, n := range g.Nodes {
+		if !n.IsManifest() && !n.Foreign() && len(n.Bytes) > 0 {
+			blobs = append(blobs, n.ID)
+		}
+	}
+	cb := []byte(fmt.Sprintf(`{"architecture":%q,"os":"linux","verif":"%d-%x"}`, common.Pick(r, arches), len(g.Nodes), r.U64()))
+	mt := ocispec.MediaTypeImageConfig
+	if r.Chance(1, 6) {
+		mt = "application/vnd.verif.config.v1+json" // SelectManifest refuses: ErrUnsupported
+	}
+	cfg := &dag.Node{ID: len(g.Nodes), Kind: dag.KConfig, Bytes: cb, Desc: desc(mt, cb), Subject: -1, TwinOf: -1}
+	g.Nodes = append(g.Nodes, cfg)
+	m := ocispec.Manifest{MediaType: ocispec.MediaTypeImageManifest, Config: cfg.Desc, Layers: []ocispec.Descriptor{}}
+	m.SchemaVersion = 2
+	im := &dag.Node{ID: len(g.Nodes), Kind: dag.KImage, Subject: -1, TwinOf: -1, Succ: []int{cfg.ID}}
+	for i := 0; i < r.Intn(3) && len(blobs) > 0; i++ {
+		l := g.Nodes[common.Pick(r, blobs)]
+		m.Layers = append(m.Layers, l.Desc)
+		im.Succ = append(im.Succ, l.ID)
+	}
+	bs, _ := json.Marshal(m)
+	im.Bytes, im.Desc = bs, desc(m.MediaType, bs)
+	g.Nodes = append(g.Nodes, im)
+	return im.ID
 }
 
 // addManifestTwin appends X = the bytes of an existing manifest M (one with a non-foreign successor)
